@@ -266,22 +266,8 @@ def resFraming (te cl ct : Option Header) (uid : Nat) (c : Conn) : R :=
     else resCl cl ct uid c
   | none => resCl cl ct uid c
 
-/-- htp_connp_RES_BODY_DETERMINE -/
-def resBodyDetermine (c : Conn) : R :=
-  match c.out.tx with
-  | none => (c, .error)
-  | some uid =>
-  let t := c.outTx
-  -- CONNECT special cases
-  let early : Option R :=
-    if t.methodNumber == M_CONNECT then
-      if t.resStatusNumber ≥ 200 ∧ t.resStatusNumber ≤ 299 then
-        some (txStateResponseHeaders cfg uid { c with outState := .finalize })
-      else none
-    else none
-  match early with
-  | some r => r
-  | none =>
+/-- the part of htp_connp_RES_BODY_DETERMINE after the 2xx-CONNECT shortcut -/
+def resBodyDetermineRest (uid : Nat) (t : Tx) (c : Conn) : R :=
   let c :=
     if t.methodNumber == M_CONNECT then
       -- (finding S36, repaired: a stopped request direction is left alone, like one in error)
@@ -333,6 +319,17 @@ def resBodyDetermine (c : Conn) : R :=
       resFraming te cl ct uid c
     else (c, .ok)
   r >>? fun c => txStateResponseHeaders cfg uid c
+
+/-- htp_connp_RES_BODY_DETERMINE: a 2xx answer to CONNECT wraps the transaction up at once (the request side probes the tunnel);
+    everything else is `resBodyDetermineRest` -/
+def resBodyDetermine (c : Conn) : R :=
+  match c.out.tx with
+  | none => (c, .error)
+  | some uid =>
+    let t := c.outTx
+    if t.methodNumber == M_CONNECT && (decide (t.resStatusNumber ≥ 200) && decide (t.resStatusNumber ≤ 299)) then
+      txStateResponseHeaders cfg uid { c with outState := .finalize }
+    else resBodyDetermineRest cfg uid t c
 
 /-- htp_connp_RES_BODY_IDENTITY_CL_KNOWN -/
 def resBodyIdentityClKnown (c : Conn) : R :=
